@@ -99,6 +99,23 @@ def flush(ctx):
     mrs = pipeline.model_results(items)
     for (cfg, pred, ref, tag, out, ip, ir, ties, hist), mr in zip(metas, mrs):
         judge(ctx, cfg, pred, ref, tag, out, ip, ir, ties, mr, hist)
+    # semantic input once more against the whole path inside the model (connected components computed by the model itself;
+    # its numbering may differ from the backend's, which cannot matter without ties: C01_semantic_result_independent_of_component_numbering)
+    sem = [(cfg, pred, ref, out, ties, hist) for (cfg, pred, ref, tag, out, ip, ir, ties, hist) in metas if cfg["input"] == "semantic" and pred.size <= 400]
+    for (cfg, pred, ref, out, ties, hist), mr in zip(sem, pipeline.semantic_model_results([(c, p, r) for c, p, r, _, _, _ in sem])):
+        if mr[0] == "skip" or isinstance(out, tuple) or ties:
+            continue
+        ctx.bump("semantic path inside the model")
+        case = {"cfg": cfg, "pred": pred, "ref": ref}
+        if hist:
+            case["history"] = list(hist)
+        if mr[0] == "err":
+            ctx.disagree("Semantic.semantic_pipeline", {**case, "model_error": mr[1]})
+            continue
+        d = pipeline.compare(cfg, impl.canon_result(out["ungrouped"][0]), mr[1])
+        if d:
+            ctx.violation("semantic input: result differs from 'connected components, then the documented procedure': " + "; ".join(d[:3]),
+                          {**case, "differences": d})
 
 
 def judge(ctx, cfg, pred, ref, tag, out, ip, ir, ties, mr, hist=()):
